@@ -20,7 +20,7 @@ LEVEL = 'exploration'
 TIERS = {"quick": 30000, "thorough": 1200000}
 BUDGET = {'quick': 150, 'thorough': 1500}
 RULE = ('seeded plans: universe descriptor + one abstract value + 2-5 replicas, each with a construction route '
-        '(canonical | permuted order | explicit/implicit DEFAULTs | native Python arguments | every scalar slot assigned a decoy first and then the target | scalars given as objects of a narrower subtype, DEFAULTs explicit | decode of a BER form the encoder produces, incl. REAL bases 8/16 | decode of an equivalent BER variant: long-form lengths, indefinite lengths, constructed strings, other TRUE octets | clone of another '
+        '(canonical | permuted order | explicit/implicit DEFAULTs | native Python arguments | every scalar slot assigned a decoy first and then the target | scalars given as objects of a narrower subtype, DEFAULTs explicit | equal sub-values being one shared object | decode of a BER form the encoder produces, incl. REAL bases 8/16 | decode of an equivalent BER variant: long-form lengths, indefinite lengths, constructed strings, other TRUE octets | clone of another '
         'route) and 0-6 interleaved read-only operations; non-trivial: at least two replicas reached the value by different routes and '
         'both encoders accepted it; distinct = distinct plan digests among those')
 ASSUMPTIONS = [
@@ -33,7 +33,7 @@ STUB = ['replica histories (construction routes and read-only operations)']
 
 ROUTES = ['canonical', 'permuted', 'permuted', 'defaults-explicit', 'defaults-implicit', 'native-args',
           'decoded:ber', 'decoded:ber-indef', 'decoded:ber-chunk:2', 'decoded:ber-indef-chunk:3', 'decoded:der', 'decoded:cer',
-          'decoded:variant', 'decoded:variant', 'decoded:realbase', 'clone', 'inplace', 'inplace', 'overwrite', 'subtyped']
+          'decoded:variant', 'decoded:variant', 'decoded:realbase', 'clone', 'inplace', 'inplace', 'overwrite', 'subtyped', 'shared']
 # read-only uses that may be interleaved *during* a construction (none of them is documented to instantiate)
 MID_READS = ['der', 'cer', 'ber', 'prettyPrint', 'str', 'iter', 'eq', 'len', 'in', 'isValue']
 READS = ['der', 'cer', 'ber', 'prettyPrint', 'str', 'iter', 'eq', 'len', 'in', 'isValue', 'values', 'getitem', 'getitem', 'items', 'deep_read']
@@ -91,7 +91,7 @@ def _gen_catalogue(r):
     desc, values = r.choice(CATALOGUE)
     reps = []
     routes = ['canonical', 'permuted', 'permuted', 'defaults-explicit', 'defaults-implicit', 'native-args',
-              'decoded:ber', 'decoded:ber-indef', 'decoded:der', 'clone', 'inplace', 'inplace', 'overwrite', 'subtyped']
+              'decoded:ber', 'decoded:ber-indef', 'decoded:der', 'clone', 'inplace', 'inplace', 'overwrite', 'subtyped', 'shared']
     for i in range(r.randrange(2, 6)):
         rep = {'route': r.choice(routes), 'perm': r.randrange(1 << 30),
                'reads': [[r.choice(READS), r.randrange(4)] for _ in range(r.choice([0, 0, 1, 3]))]}
@@ -254,10 +254,43 @@ def _narrowed(sub, d, x, rnd):
         return U.build_value(sub, d, x)
 
 
+def build_shared(schema, desc, v, memo):
+    """Canonical construction in which equal sub-values of the same type are ONE object referenced from
+    several places (cert['issuer'] = name; cert['subject'] = name;  records.extend([record] * 2))."""
+    k = desc['k']
+    key = (P.canon(desc), P.canon(v))
+    if key in memo:
+        return memo[key]
+    if k in ('SEQ', 'SET'):
+        obj = schema.clone()
+        nts = schema.componentType
+        present = [(f, v[f['n']]) for f in desc['fields'] if f['n'] in v]
+        for f, x in present:
+            obj.setComponentByName(f['n'], build_shared(nts[f['n']].asn1Object, f['d'], x, memo))
+        if not present and not desc['fields']:
+            obj.clear()
+    elif k in ('SEQOF', 'SETOF'):
+        obj = schema.clone()
+        obj.clear()
+        for i, x in enumerate(v):
+            obj.setComponentByPosition(i, build_shared(schema.componentType, desc['of'], x, memo))
+    elif k == 'CHOICE':
+        obj = schema.clone()
+        name, x = v
+        a = dict((n, d) for n, d in desc['alts'])[name]
+        obj.setComponentByName(name, build_shared(schema.componentType[name].asn1Object, a, x, memo))
+    else:
+        obj = U.build_value(schema, desc, v)
+    memo[key] = obj
+    return obj
+
+
 def build_route(schema, desc, v, route, rnd):
     """Build the value of `desc` along `route`.  rnd is a Random seeded from the plan."""
     if route == 'overwrite':
         return build_overwrite(schema, desc, v, rnd)
+    if route == 'shared':
+        return build_shared(schema, desc, v, {})
     k = desc['k']
     if route == 'subtyped' and k in U.PRIMS and rnd.random() < 0.8:
         return _narrowed(schema, desc, v, rnd)
